@@ -300,9 +300,27 @@ func (n *Node) verdict(txs []H) bool {
 	return true
 }
 
+// completeTxs: the transactions attached to a (pre-)block are exactly the listed ones (a strict application verifier
+// looks at them; the default verifier of the harness judges the hash list only, so that a block with a hole travels
+// on to the monitors that name the hole).
+func completeTxs(hashes []H, txs []dbft.Transaction[H]) bool {
+	if len(hashes) != len(txs) {
+		return false
+	}
+	for i, t := range txs {
+		if t == nil || t.Hash() != hashes[i] {
+			return false
+		}
+	}
+	return true
+}
+
 func (n *Node) cbVerifyBlock(b dbft.Block[H]) bool {
 	bb := b.(*Block)
 	ok := n.verdict(bb.txHashes)
+	if n.sc().StrictVerify && !completeTxs(bb.txHashes, bb.txs) {
+		ok = false
+	}
 	n.monFor(n.d.BlockIndex).verifiedOK[bb.Hash()] = ok
 	return ok
 }
@@ -310,6 +328,9 @@ func (n *Node) cbVerifyBlock(b dbft.Block[H]) bool {
 func (n *Node) cbVerifyPreBlock(b dbft.PreBlock[H]) bool {
 	bb := b.(*PreBlock)
 	ok := n.verdict(bb.txHashes)
+	if n.sc().StrictVerify && !completeTxs(bb.txHashes, bb.txs) {
+		ok = false
+	}
 	n.monFor(n.d.BlockIndex).verifiedOK[bb.hash()] = ok
 	return ok
 }
